@@ -70,16 +70,6 @@ def rule_c(ctx):
         its = [i for i in sp.calls(r"into_iter$") if "Vec<ports::source::broadcaster::SenderFutureState" in (i.node.get("argtys") or [""])[0]]
         ok = len(its) == 2 and all(any(x[2] == "std::mem::take" for o in sp.origins(i.args()[0], i) for x in origin_calls(o)) for i in its)
         ctx.ob("source|replies-in-connection-order", ok, "the source-side reply iterator consumes the vector of future states front to back", its)
-    # BroadcastFuture::new clears the slots it is going to use
-    nb = P.body("ports::output::broadcaster::BroadcastFuture::new")
-    if nb is not None:
-        tk = list(nb.calls("^std::option::Option::take$"))
-        tks = list(nb.calls("^std::iter::Iterator::take$"))
-        ok = len(tk) == 1 and len(tks) == 1 and nb.in_loop(tk[0])
-        ctx.ob("output|slots-cleared-before-broadcast", ok, "the reply slots about to be used are emptied when the broadcast future is created", tk + tks)
-        cnt = [s for s in nb.calls("^std::vec::Vec::len$")]
-        ok = bool(cnt) and any(nb.origins(t.args()[1], t) == frozenset([("call", c.b, c.callee)]) for t in tks for c in cnt)
-        ctx.ob("output|pending-count-is-number-of-futures", ok, "the pending counter starts at the number of sub-futures", cnt)
 
 
 def _epoch_sites(b, op, shared=True):
